@@ -111,6 +111,17 @@ func (w *World) VerifyFunc(key string) (vc *VC, err error) {
 		}
 		vc.assume(True, t)
 	}
+	if fc != nil {
+		for _, u := range fc.Uses {
+			ax, e := w.lemmaAxiom(u, vc.used)
+			if e != nil {
+				vc.errorf("%s", e)
+				continue
+			}
+			vc.assume(True, ax)
+			vc.note("uses lemma %s (proved separately)", u)
+		}
+	}
 	// preconditions
 	if fc != nil {
 		env := fr.contractEnv(fr.entry)
@@ -284,6 +295,70 @@ func (fr *frame) mkAssignsOK(fc *FuncContract, env *Env) func(key string, ref *T
 
 // ---------------------------------------------------------------- lemmas
 
+// lemmaAxiom turns a (separately proved) lemma into a universally quantified
+// fact: its binders and every heap array it reads become bound variables.
+func (w *World) lemmaAxiom(label string, used *Usage) (*Term, error) {
+	var lm *Lemma
+	for _, l := range w.cons.Lemmas {
+		if l.Label == label || strings.HasSuffix(l.Label, ":"+label) {
+			lm = l
+		}
+	}
+	if lm == nil {
+		return nil, fmt.Errorf("use: no lemma %q", label)
+	}
+	binderCounter++
+	tag := fmt.Sprintf("q!lm%d!", binderCounter)
+	var bs []Binder
+	seenH := map[string]*Term{}
+	env := &Env{w: w, pkg: lm.Pkg, vars: map[string]TV{}, used: used}
+	env.heap = func(key string) *Term {
+		if t, ok := seenH[key]; ok {
+			return t
+		}
+		t := Sym(tag+smtName("h!"+key), w.heapSort[key])
+		seenH[key] = t
+		bs = append(bs, Binder{t.Op, t.Sort})
+		return t
+	}
+	env.old = env.heap
+	e := lm.E
+	var guards []*Term
+	for {
+		q, ok := e.(EQuant)
+		if !ok || !q.Forall {
+			break
+		}
+		for _, qv := range q.Vars {
+			var ty types.Type = types.Typ[types.Int]
+			if qv.Type != "" {
+				t, err := w.resolveType(qv.Type, lm.Pkg)
+				if err != nil {
+					return nil, err
+				}
+				ty = t
+			}
+			c := Sym(tag+smtName(qv.Name), w.sortOf(ty))
+			env.vars[qv.Name] = TV{T: c, Ty: ty}
+			bs = append(bs, Binder{c.Op, c.Sort})
+			if qv.Lo != nil {
+				lo, e1 := env.Compile(qv.Lo)
+				hi, e2 := env.Compile(qv.Hi)
+				if e1 != nil || e2 != nil {
+					return nil, fmt.Errorf("lemma %s: %v %v", lm.Label, e1, e2)
+				}
+				guards = append(guards, Le(env.toSort(lo, ty).T, c), Lt(c, env.toSort(hi, ty).T))
+			}
+		}
+		e = q.Body
+	}
+	body, err := env.CompileBool(e)
+	if err != nil {
+		return nil, fmt.Errorf("lemma %s: %v", lm.Label, err)
+	}
+	return Forall(bs, Implies(And(guards...), body)), nil
+}
+
 func (w *World) VerifyLemma(lm *Lemma) (vc *VC, err error) {
 	w.regAllocKeys()
 	vc = NewVC(w, "lemma:"+lm.Label)
@@ -326,6 +401,13 @@ func (w *World) VerifyLemma(lm *Lemma) (vc *VC, err error) {
 			}
 		}
 		e = q.Body
+	}
+	for _, u := range lm.Uses {
+		ax, e2 := w.lemmaAxiom(u, vc.used)
+		if e2 != nil {
+			return nil, e2
+		}
+		vc.assume(True, ax)
 	}
 	for _, hsrc := range lm.Hints {
 		he, e2 := parseExpr(hsrc)
